@@ -111,7 +111,7 @@ class FileUnderTest:
         else:
             raise ValueError(a)
 
-    def observe(self):
+    def observe(self, final=True):
         """summaries through every reader + the data itself"""
         import dclab
         self.close()
@@ -142,7 +142,56 @@ class FileUnderTest:
                 out["refresh"] = (got, ref, np.array_equal(
                     vals, np.asarray(ds[self.feat][:], dtype=float)[1:],
                     equal_nan=True))
+        # (basin-backed and joined views at the end of a history only)
+        out["derived"] = self.derived_views() if final else []
         return out
+
+    def derived_views(self):
+        """summaries reported through a basin (same events) and by a file
+        joined from this file and a copy of it: (name, reported, definition)"""
+        import dclab
+        import warnings
+        from dclab import cli
+        from dclab.rtdc_dataset import RTDCWriter
+        res = []
+
+        def stats(vals):
+            vals = np.asarray(vals, dtype=float)
+            if not np.any(~np.isnan(vals)):
+                return (np.nan,) * 3
+            return (np.nanmin(vals), np.nanmax(vals), np.nanmean(vals))
+        self.k += 1
+        ref = self.root / ("ref%d.rtdc" % self.k)
+        m = {k: dict(v) for k, v in gen.META.items() if k != "fluorescence"}
+        with dclab.new_dataset(self.path) as ds:
+            n = len(ds)
+        with RTDCWriter(ref, mode="reset") as hw:
+            hw.store_metadata(m)
+            hw.store_feature("area_um", np.arange(n, dtype=float) + 1)
+            hw.store_basin("src", "file", "hdf5", [str(self.path)],
+                           basin_feats=[self.feat], verify=False)
+        with warnings.catch_warnings():
+            warnings.simplefilter("ignore")
+            with dclab.new_dataset(ref) as rd:
+                if self.feat in rd:
+                    fo = rd[self.feat]
+                    if hasattr(fo, "min") and hasattr(fo, "mean"):
+                        res.append(("basin-backed", (fo.min(), fo.max(),
+                                                     fo.mean()),
+                                    stats(fo[:])))
+            cp = self.root / ("cp%d.rtdc" % self.k)
+            jo = self.root / ("jo%d.rtdc" % self.k)
+            import shutil as _sh
+            _sh.copy(self.path, cp)
+            with contextlib.redirect_stdout(io.StringIO()):
+                cli.join(paths_in=[self.path, cp], path_out=jo)
+            with dclab.new_dataset(jo) as jd:
+                fo = jd[self.feat]
+                res.append(("joined", (fo.min(), fo.max(), fo.mean()),
+                            stats(fo[:])))
+        for p_ in (ref, cp, jo):
+            p_.unlink()
+        return res
 
 
 def _replay(job):
@@ -152,6 +201,9 @@ def _replay(job):
     _replay.n += 1
     d.mkdir()
     shift = 0 if feat == "deform" else 2
+    import zlib
+    # (basin-backed / joined views: a quarter of the histories)
+    derived = zlib.crc32(repr(hist_).encode()) % 4 == 0
     fut = FileUnderTest(d, feat)
     viol = None
     steps = []
@@ -165,7 +217,7 @@ def _replay(job):
                 # end of the history (all prefixes are histories of their own)
                 if fut.hw is not None and i < len(hist_) - 1:
                     continue
-                obs = fut.observe()
+                obs = fut.observe(final=(i == len(hist_) - 1 and derived))
             except Exception as exc:
                 viol = ("%s raises %s" % (st["a"], type(exc).__name__),
                         "step %d %s: %r" % (i, st, exc), i)
@@ -186,6 +238,17 @@ def _replay(job):
                             "from its data", "steps %s: reported %s, data "
                             "give %s" % (steps, got, ref), i)
                     break
+            for name, got, ref in obs.get("derived", []):
+                if not all((np.isnan(g) and np.isnan(r))
+                           or abs(float(g) - float(r))
+                           <= 1e-12 * max(1.0, abs(float(r)))
+                           for g, r in zip(got, ref)):
+                    viol = ("summaries of a %s dataset differ from its data"
+                            % name, "steps %s: reported %s, data give %s" % (
+                                steps, got, ref), i)
+                    break
+            if viol:
+                break
             for reader in ("hdf5", "child"):
                 mn, mx, me = obs[reader]
                 bad = [nm for nm, o, r in (("min", mn, rec["min"]),
@@ -226,13 +289,15 @@ def main(tier, seed, replay=None):
                "min/max/mean per step; each history is executed on a real "
                ".rtdc file (float feature, and uint32 feature for NaN-free "
                "histories) and after every step min()/max()/mean() of the "
-               "HDF5 feature object and of a hierarchy child are compared "
+               "HDF5 feature object, of a hierarchy child (also after a refresh), "
+               "of a basin-backed referrer and of a file joined from the "
+               "file and a copy are compared "
                "with the rationals (1e-12) and the stored values with the "
                "expected data. non-trivial = at least two production steps; "
                "distinct by hash.")
-    ev.assumptions = ["join and basin-backed readers are covered by the C09 "
-                      "and C07 checks' summary comparisons",
-                      "values exactly representable"]
+    ev.assumptions = ["values exactly representable",
+                      "feature objects of mapped basins report no summaries "
+                      "(no min/max/mean methods): nothing to compare"]
     # 1. design level: the write paths keep the stored summaries correct
     ok = tlc.run("MC_Summaries", DESIGN + BASE.format(
         vals="MCVals", ml=5 if tier == "quick" else 6, mb=2, cv="TRUE",
